@@ -8,7 +8,6 @@ import (
 	"strings"
 
 	sdk "github.com/cosmos/cosmos-sdk/types"
-	authtypes "github.com/cosmos/cosmos-sdk/x/auth/types"
 	banktypes "github.com/cosmos/cosmos-sdk/x/bank/types"
 	"github.com/ethereum/go-ethereum/common"
 	"github.com/ethereum/go-ethereum/crypto"
@@ -48,13 +47,13 @@ func maxI(a, b int64) int64 {
 
 // GenTx is one generated transaction.
 type GenTx struct {
-	Bz   []byte
-	Eth  bool
-	Hash common.Hash
-	From string
-	Aim  string
-	Gas  uint64
-	Type int
+	Bz         []byte
+	Eth        bool
+	Hash       common.Hash
+	From       string
+	Aim        string
+	Gas        uint64
+	Type       int
 	Price, Tip int64
 }
 
@@ -72,34 +71,16 @@ type Gen struct {
 // NewGen builds a fresh harness chain (small-magnitude genesis, standard contract menu).
 func NewGen(seed int64, tid string, tbl *prog.Table) *Gen {
 	r := rand.New(rand.NewSource(seed))
-	u := prog.NewUniverse()
-	o := chain.DefaultOpts()
-	o.NAccts = 6
-	switch r.Intn(5) {
-	case 0, 1:
-		o.MaxGas = int64(150000 + r.Intn(5)*50000)
-	default:
-		o.MaxGas = -1
+	maxGas := int64(-1)
+	if r.Intn(5) < 2 {
+		maxGas = int64(150000 + r.Intn(5)*50000)
 	}
-	o.BaseFee = int64(5 + r.Intn(10))
-	for i := 0; i < o.NAccts; i++ {
-		u.Add(fmt.Sprintf("a%d", i), chain.NewAcct(fmt.Sprintf("a%d", i)).Addr)
-	}
-	u.Add("fc", chain.FeeCollector)
-	u.Add("evm", chain.EvmModule)
-	u.Add("distr", chain.DistrModule)
-	u.Add("m0", chain.ModuleAddr("mint"))
-	for i := 0; i < 3; i++ {
-		u.Add(fmt.Sprintf("x%d", i), freshAddr(i))
-	}
-	u.Add("z0", freshAddr(100))
-	u.Add("v0", freshAddr(101))
-	u.Add("v1", freshAddr(102))
-	o.ExtraAccts = append(o.ExtraAccts, authtypes.NewBaseAccount(freshAddr(100).Bytes(), nil, 0, 0))
-	o.Contracts = drivers.StdMenu(u, tbl, tid+"_")
-	c := chain.New(o)
-	w := &drivers.World{C: c, U: u, T: tbl, Tid: tid, R: r}
-	return &Gen{W: w, Rec: NewRec(c), R: r}
+	// universe, genesis accounts and contract menu are those of the EthTx family (kept in one place: drivers.NewEthWorld)
+	w, _ := drivers.NewEthWorld(tbl, r, tid, func(o *chain.Opts) {
+		o.MaxGas = maxGas
+		o.MinGasPrice = "0"
+	})
+	return &Gen{W: w, Rec: NewRec(w.C), R: r}
 }
 
 func sortedKeys(m map[string][]prog.Op) []string {
